@@ -166,9 +166,9 @@ def r51(ctx, rep, nc):
             bounds.add((norm(c.args[1]), norm(c.args[2])))
         elif len(c.args) == 2:
             bounds.add(('0', norm(c.args[1])))
-    if len(reads) >= 2 and len(bounds) == 1:
+    if len(reads) >= 1 and len(bounds) == 1:
         rep.held('R5.1', nc, 'run bound', 'all %d reads use islice(it, %s, %s)' % (len(reads), *list(bounds)[0]), nc.node)
-    elif len(reads) < 2:
+    elif len(reads) < 1:
         raise AnalysisError('anchor vanished: run reads (islice) in SortView._iternocache')
     else:
         rep.violated('R5.1', nc, 'run bound', 'runs are read with different bounds %s' % sorted(bounds), reads[0])
@@ -182,10 +182,12 @@ def r51(ctx, rep, nc):
 
 # ------------------------------------------------------------------------- R5.2
 def r52(ctx, rep, sv, nc):
-    sorts = [n for n in own_nodes(nc.node) if isinstance(n, ast.Call) and isinstance(n.func, ast.Attribute)
-             and n.func.attr == 'sort']
+    # a run is sorted either in place (rows.sort(key=, reverse=)) or by sorted(<run>, key=, reverse=)
+    sorts = [n for n in own_nodes(nc.node) if isinstance(n, ast.Call) and
+             ((isinstance(n.func, ast.Attribute) and n.func.attr == 'sort') or
+              (isinstance(n.func, ast.Name) and n.func.id == 'sorted'))]
     merges = _calls(nc, '_mergesorted')
-    if len(sorts) < 2 or not merges:
+    if len(sorts) < 1 or not merges:
         raise AnalysisError('anchor vanished: run sorts / merge in SortView._iternocache')
     ks = set((norm(_kw(c, 'key')) if _kw(c, 'key') is not None else None,
               norm(_kw(c, 'reverse')) if _kw(c, 'reverse') is not None else None) for c in sorts)
